@@ -41,6 +41,15 @@ def make_scenarios(ctx, count):
         seq = rng.randint(1, 50000)
         capb = G.cap_qresp(cfb["mtu"])
         for rnd in range(rng.randint(1, 3)):
+            if rnd > 0 and rng.random() < 0.25:
+                # A's hardware address is changed by its administrator in the middle of the session (the platform getter
+                # reports the new one from now on): what A emits carries the address A has when it emits
+                a = G.related_mac(rng, a) if rng.random() < 0.5 else G.rand_mac(rng)
+                if a == b:
+                    a = G.rand_mac(rng)
+                s.add("SET 0 mac=%s" % a.hex())
+                neta.own = a
+                ops.append(("MAC-A", a))
             n = min(rng.choice([1, 2, 5, 12, 40]), G.cap_emit(cfa["mtu"]))
             srcs = G.distinct_macs(rng, n, avoid=[a, b])
             descs = []
@@ -77,7 +86,7 @@ def make_scenarios(ctx, count):
                 seq += 1
                 feed(1, G.f_query(rng, netb, m, seq=seq, bridged=bridged and not b_is_bridge), "QUERY")
             ops.append(("ROUND-END",))
-        s.meta.update(ops=ops, a=a, b=b, b_is_bridge=b_is_bridge)
+        s.meta.update(ops=ops, a=cfa["mac"], b=b, b_is_bridge=b_is_bridge)
         scns.append(s)
     return scns
 
@@ -96,6 +105,10 @@ def monitor(scn, sobj, rep, sf, ck):
     for op in ops:
         if dead:
             break
+        if op[0] == "MAC-A":
+            a = op[1]
+            rep.count("emitter_address_changed_mid_session")
+            continue
         if op[0] in ("F", "EMIT", "QUERY"):
             inp = nxt
             nxt = next(it, None)
@@ -160,5 +173,6 @@ def run(ctx):
     scns = make_scenarios(ctx, ctx.n(600, 15000))
     run_monitored(ctx, binary, scns, monitor, tag="peer")
     rep.need("frames_delivered", rep.counters.get("frames_delivered", 0), 1000)
+    rep.need("emitter_address_changed_mid_session", rep.counters.get("emitter_address_changed_mid_session", 0), 30)
     rep.need("frames_delivered_to_the_mappers_bridge", rep.counters.get("frames_delivered_to_the_mappers_bridge", 0), 100)
     rep.need("clock_gaps_between_frames", rep.counters.get("clock_gaps_between_frames", 0), 200)
